@@ -415,7 +415,12 @@ func (v *verifSession) settle(limit time.Duration) bool {
 	stable := 0
 	for time.Now().Before(deadline) {
 		quiet := v.w.sim.Open() == 0
-		v.s.m.Lock()
+		/* a mutex that is never released again must end in "wedged", not in a driver that waits for ever */
+		if !v.s.m.TryLock() {
+			stable = 0
+			time.Sleep(300 * time.Microsecond)
+			continue
+		}
 		if v.s.mode == loading || (v.s.mode == opening && !v.held) {
 			quiet = false
 		}
@@ -440,7 +445,15 @@ func (v *verifSession) settle(limit time.Duration) bool {
 }
 
 func (v *verifSession) observe() verifkit.M {
-	v.s.m.Lock()
+	locked := false
+	for waited := 0; waited < 4000 && !locked; waited++ {
+		if locked = v.s.m.TryLock(); !locked {
+			time.Sleep(500 * time.Microsecond)
+		}
+	}
+	if !locked {
+		return verifkit.M{"mode": "locked", "npages": 0, "at": 0, "hl": "none", "centre": "none", "pos": 0, "buflen": 0}
+	}
 	defer v.s.m.Unlock()
 	s := v.s
 	obs := verifkit.M{"mode": verifModes[s.mode], "npages": 0, "at": 0, "hl": "none", "centre": "none", "pos": 0, "buflen": len([]rune(s.buffer))}
@@ -543,11 +556,27 @@ func (v *verifSession) openGated(target string, w, h int) error {
 }
 
 func (v *verifSession) press(tok string, bytes []byte) (panicked bool, what string, wedged bool) {
-	panicked, what = verifkit.Try(func() {
-		for _, b := range bytes {
-			v.s.Update(b)
-		}
-	})
+	/* a key that never returns (a mutex that was not released) must end in "wedged", not in a driver that hangs */
+	type outcome struct {
+		panicked bool
+		what     string
+	}
+	done := make(chan outcome, 1)
+	go func() {
+		var o outcome
+		o.panicked, o.what = verifkit.Try(func() {
+			for _, b := range bytes {
+				v.s.Update(b)
+			}
+		})
+		done <- o
+	}()
+	select {
+	case o := <-done:
+		panicked, what = o.panicked, o.what
+	case <-time.After(12 * time.Second):
+		return false, "the key did not return", true
+	}
 	if panicked {
 		return
 	}
